@@ -217,6 +217,8 @@ UnionTypes == { TUnion(<<TInt, TFloat>>), TUnion(<<TFloat, TInt>>), TUnion(<<TIn
                 \* a class and its subclass as alternatives, in both orders; a container of the base class
                 TUnion(<<TObj("BS"), TObj("DS")>>), TUnion(<<TObj("DS"), TObj("BS")>>), TUnion(<<TObj("DS"), TObj("BS"), TNone>>),
                 TColl("list", TObj("BS")), TMap(TStr, TObj("BS")),
+                \* a class next to alternatives of other JSON types: dispatched by the type of the datum
+                TUnion(<<TObj("P1"), TInt, TColl("list", TInt)>>), TColl("list", TUnion(<<TObj("P1"), TStr>>)),
                 TUnion(<<TColl("list", TInt), TTuple(<<TInt, TStr>>)>>),
                 TUnion(<<TEnum("ES"), TStr, TNone>>), TUnion(<<TFloat, TStr>>),
                 TUnion(<<TUnion(<<TInt, TStr>>), TNone>>),
